@@ -132,7 +132,19 @@
    C06_former_witnesses_alternate; nothing proved), non-pointwise services, runs in which the task-stack guard fired;
    the converse of (7) (every awaiting task's contexts ARE resumed while t runs) is only proved for t itself (6) and for
    the suspended callers (10) - for ancestors it follows from MachineC07's layer structure but is not stated here.
-   These are covered by the correspondence harness + monitors. *)
+   These are covered by the correspondence harness + monitors.
+   WITHOUT THE HYPOTHESIS no_unwind FOR stree PROGRAMS (end of the file; proofs/MachineGuardFormsS.v): the stree
+   theorems whose hypothesis is no_unwind P n (start h s1) are restated with "the MAX_TASK_STACK_SIZE guard has not
+   fired before step n" in its place (MachineNoUnwind.stree_no_unwind_iff_guard_silent):
+   C06_contexts_at_every_flush_stree_guard, C06_contexts_at_nested_flush_stree_guard,
+   C06_contexts_paused_at_outer_flush_stree_guard, C06_contexts_active_while_own_code_runs_stree_guard,
+   C06_callers_stay_resumed_inside_value_guard, C06_contexts_untouched_inside_value_guard,
+   C06_all_paused_at_end_stree_guard, C06_resume_pause_alternate_stree_guard,
+   C06_run_case_resume_pause_alternate_stree_guard, C06_newest_is_resume_iff_active_stree_guard,
+   C06_all_paused_at_end_stree_trace_guard, C06_resumed_at_flush_stree_guard,
+   C06_all_paused_at_outer_flush_stree_trace_guard, C06_resumed_while_code_runs_stree_guard,
+   C06_caller_contexts_resumed_stree_guard, C06_resumed_only_on_stack_stree_guard,
+   C06_resume_pause_alternate_stree_wn_guard. *)
 From Asynq Require Import Machine Seq proofs.MachineC08 proofs.MachineC01 proofs.MachineDFS proofs.MachineC04
      proofs.MachineC07 proofs.MachineC06T proofs.MachineC06X.
 
@@ -641,3 +653,190 @@ Theorem C06_resumed_only_in_awaiting_tasks_guard : forall P, pointwise P -> fora
   (exists rest, filter (evk u cid) (trace s) = EvResume u cid :: rest) -> reach s u t.
 Proof. exact resumed_only_in_awaiting_tasks_tree_guard. Qed.
 Print Assumptions C06_resumed_only_in_awaiting_tasks_guard.
+
+(* ==== the stree theorems WITHOUT an assumption about exceptions unwinding (proofs/MachineNoUnwind.v, MachineGuardFormsS.v) ====
+   [no_unwind P n (start h s1)] is replaced by "the MAX_TASK_STACK_SIZE guard has not fired before step n"; also with
+   synchronous calls FutureIsAlreadyComputed is proved unreachable (stree_no_unwind_iff_guard_silent), so the guard's
+   RuntimeError is the only exception that can unwind through asynq's frames.  Binders and conclusions are those of
+   the theorems of the same name without the suffix _guard. *)
+From Asynq Require Import proofs.MachineNoUnwind proofs.MachineGuardFormsS.
+Theorem C06_contexts_at_every_flush_stree_guard : forall P, pointwise P -> forall p, stree p -> forall n,
+  let h := fst (create [] (FTask p) (st0 P)) in
+  let s1 := snd (create [] (FTask p) (st0 P)) in
+  (forall k, (k < n)%nat -> guard_fires P (run P k (start h s1)) = false) ->
+  c_mode (run P n (start h s1)) = MAfterExec ->
+  let c := run P n (start h s1) in
+  exists r vs, c_frames c = FWait r :: vs /\ stk (tasks (c_st c)) vs /\
+    (forall t, In t (fvals vs) -> exists tk, get t (c_st c) = Some (mkFut None (KTask tk)) /\ tk_cact tk = true) /\
+    (forall u tk, get u (c_st c) = Some (mkFut None (KTask tk)) -> tk_cact tk = true \/ tk_ds tk = true ->
+       In u (tasks (c_st c)) /\ tk_cact tk = true /\ (In u (fvals vs) \/ tk_ds tk = true)).
+Proof. exact flush_stree_guard. Qed.
+Print Assumptions C06_contexts_at_every_flush_stree_guard.
+
+Theorem C06_contexts_at_nested_flush_stree_guard : forall P, pointwise P -> forall p, stree p -> forall n r t k fr',
+  let h := fst (create [] (FTask p) (st0 P)) in
+  let s1 := snd (create [] (FTask p) (st0 P)) in
+  (forall j, (j < n)%nat -> guard_fires P (run P j (start h s1)) = false) ->
+  c_mode (run P n (start h s1)) = MAfterExec ->
+  c_frames (run P n (start h s1)) = FWait r :: FValue t k :: fr' ->
+  let s := c_st (run P n (start h s1)) in
+  exists old i r' vs rest below,
+    fr' = FCont t old :: FExec i :: FWait r' :: vs /\ tasks s = t :: rest ++ below /\ length below = i /\
+    stk below vs /\
+    (exists tk, get t s = Some (mkFut None (KTask tk)) /\ tk_cact tk = true) /\
+    (forall u tk, get u s = Some (mkFut None (KTask tk)) -> tk_cact tk = true \/ tk_ds tk = true ->
+       (u = t \/ In u (rest ++ below)) /\ tk_cact tk = true /\ (u = t \/ In u (fvals vs) \/ tk_ds tk = true)).
+Proof. exact nested_flush_stree_guard. Qed.
+Print Assumptions C06_contexts_at_nested_flush_stree_guard.
+
+Theorem C06_contexts_paused_at_outer_flush_stree_guard : forall P, pointwise P -> forall p, stree p -> forall n,
+  let h := fst (create [] (FTask p) (st0 P)) in
+  let s1 := snd (create [] (FTask p) (st0 P)) in
+  (forall k, (k < n)%nat -> guard_fires P (run P k (start h s1)) = false) ->
+  c_mode (run P n (start h s1)) = MAfterExec ->
+  fvals (c_frames (run P n (start h s1))) = [] ->
+  tasks (c_st (run P n (start h s1))) = [] /\
+  forall u tk, get u (c_st (run P n (start h s1))) = Some (mkFut None (KTask tk)) ->
+    tk_cact tk = false /\ tk_ds tk = false.
+Proof. exact outer_flush_stree_guard. Qed.
+Print Assumptions C06_contexts_paused_at_outer_flush_stree_guard.
+
+Theorem C06_contexts_active_while_own_code_runs_stree_guard : forall P, pointwise P -> forall p, stree p -> forall n t q,
+  let h := fst (create [] (FTask p) (st0 P)) in
+  let s1 := snd (create [] (FTask p) (st0 P)) in
+  (forall k, (k < n)%nat -> guard_fires P (run P k (start h s1)) = false) -> c_mode (run P n (start h s1)) = MRun t q ->
+  let c := run P n (start h s1) in
+  (exists rest, tasks (c_st c) = t :: rest) /\
+  (forall x, x = t \/ In x (fvals (c_frames c)) ->
+     exists tk, get x (c_st c) = Some (mkFut None (KTask tk)) /\ tk_cact tk = true) /\
+  (forall u tk, get u (c_st c) = Some (mkFut None (KTask tk)) -> tk_cact tk = true ->
+     In u (tasks (c_st c)) /\ (u = t \/ In u (fvals (c_frames c)) \/ tk_ds tk = true)).
+Proof. exact running_stree_guard. Qed.
+Print Assumptions C06_contexts_active_while_own_code_runs_stree_guard.
+
+Theorem C06_callers_stay_resumed_inside_value_guard : forall P, pointwise P -> forall p, stree p -> forall n t,
+  let h := fst (create [] (FTask p) (st0 P)) in
+  let s1 := snd (create [] (FTask p) (st0 P)) in
+  (forall k, (k < n)%nat -> guard_fires P (run P k (start h s1)) = false) ->
+  is_final (c_mode (run P n (start h s1))) = false ->
+  In t (fvals (c_frames (run P n (start h s1)))) ->
+  exists tk, get t (c_st (run P n (start h s1))) = Some (mkFut None (KTask tk)) /\ tk_cact tk = true.
+Proof. exact callers_stay_resumed_guard. Qed.
+Print Assumptions C06_callers_stay_resumed_inside_value_guard.
+
+Theorem C06_contexts_untouched_inside_value_guard : forall P p n m t, pointwise P -> stree p ->
+  let h := fst (create [] (FTask p) (st0 P)) in
+  let s1 := snd (create [] (FTask p) (st0 P)) in
+  (forall j, (j < n + m)%nat -> guard_fires P (run P j (start h s1)) = false) ->
+  (forall k, (n <= k < n + m)%nat -> In t (fvals (c_frames (run P k (start h s1))))) ->
+  cevt t (c_st (run P (n + m) (start h s1))) = cevt t (c_st (run P n (start h s1))).
+Proof. exact contexts_untouched_inside_value_guard. Qed.
+Print Assumptions C06_contexts_untouched_inside_value_guard.
+
+Theorem C06_all_paused_at_end_stree_guard : forall P, pointwise P -> forall p, stree p -> forall n o,
+  let h := fst (create [] (FTask p) (st0 P)) in
+  let s1 := snd (create [] (FTask p) (st0 P)) in
+  (forall k, (k < n)%nat -> guard_fires P (run P k (start h s1)) = false) -> c_mode (run P n (start h s1)) = MDone o ->
+  tasks (c_st (run P n (start h s1))) = [] /\
+  forall u tk, get u (c_st (run P n (start h s1))) = Some (mkFut None (KTask tk)) ->
+    tk_cact tk = false /\ tk_ds tk = false.
+Proof. exact end_stree_guard. Qed.
+Print Assumptions C06_all_paused_at_end_stree_guard.
+
+Theorem C06_resume_pause_alternate_stree_guard : forall P, pointwise P -> forall p, stree p -> wns [] p -> forall n t cid,
+  let h := fst (create [] (FTask p) (st0 P)) in
+  let s1 := snd (create [] (FTask p) (st0 P)) in
+  (forall k, (k < n)%nat -> guard_fires P (run P k (start h s1)) = false) ->
+  alternates t cid true (ctx_events t cid (trace (c_st (run P n (start h s1))))).
+Proof. exact resume_pause_alternate_stree_guard. Qed.
+Print Assumptions C06_resume_pause_alternate_stree_guard.
+
+Theorem C06_run_case_resume_pause_alternate_stree_guard : forall P p n t cid,
+  pointwise P -> stree p -> wns [] p ->
+  (forall k, (k < n)%nat -> guard_fires P (run P k
+     (start (fst (create [] (FTask p) (st0 P))) (snd (create [] (FTask p) (st0 P))))) = false) ->
+  alternates t cid true (filter (evk t cid) (snd (run_case P n [p]))).
+Proof. exact run_case_resume_pause_alternate_stree_guard. Qed.
+Print Assumptions C06_run_case_resume_pause_alternate_stree_guard.
+
+Theorem C06_newest_is_resume_iff_active_stree_guard : forall P, pointwise P -> forall p, stree p -> wns [] p -> forall n t cid,
+  let h := fst (create [] (FTask p) (st0 P)) in
+  let s1 := snd (create [] (FTask p) (st0 P)) in
+  (forall k, (k < n)%nat -> guard_fires P (run P k (start h s1)) = false) ->
+  let s := c_st (run P n (start h s1)) in
+  (exists rest, filter (evk t cid) (trace s) = EvResume t cid :: rest) <->
+  (exists tk f, get t s = Some (mkFut None (KTask tk)) /\ tk_cact tk = true /\ In (CAsync cid f) (tk_ctxs tk)).
+Proof. exact newest_is_resume_iff_active_stree_guard. Qed.
+Print Assumptions C06_newest_is_resume_iff_active_stree_guard.
+
+Theorem C06_all_paused_at_end_stree_trace_guard : forall P, pointwise P -> forall p, stree p -> wns [] p -> forall n t cid o,
+  let h := fst (create [] (FTask p) (st0 P)) in
+  let s1 := snd (create [] (FTask p) (st0 P)) in
+  (forall k, (k < n)%nat -> guard_fires P (run P k (start h s1)) = false) -> c_mode (run P n (start h s1)) = MDone o ->
+  match filter (evk t cid) (trace (c_st (run P n (start h s1)))) with [] => True | e :: _ => e = EvPause t cid end.
+Proof. exact all_paused_at_end_stree_events_guard. Qed.
+Print Assumptions C06_all_paused_at_end_stree_trace_guard.
+
+Theorem C06_resumed_at_flush_stree_guard : forall P, pointwise P -> forall p, stree p -> wns [] p -> forall n t cid,
+  let h := fst (create [] (FTask p) (st0 P)) in
+  let s1 := snd (create [] (FTask p) (st0 P)) in
+  (forall k, (k < n)%nat -> guard_fires P (run P k (start h s1)) = false) ->
+  c_mode (run P n (start h s1)) = MAfterExec ->
+  let c := run P n (start h s1) in
+  (exists rest, filter (evk t cid) (trace (c_st c)) = EvResume t cid :: rest) ->
+  In t (tasks (c_st c)) /\
+  exists tk, get t (c_st c) = Some (mkFut None (KTask tk)) /\ (In t (fvals (c_frames c)) \/ tk_ds tk = true).
+Proof. exact resumed_at_flush_stree_guard. Qed.
+Print Assumptions C06_resumed_at_flush_stree_guard.
+
+Theorem C06_all_paused_at_outer_flush_stree_trace_guard : forall P, pointwise P -> forall p, stree p -> wns [] p -> forall n t cid,
+  let h := fst (create [] (FTask p) (st0 P)) in
+  let s1 := snd (create [] (FTask p) (st0 P)) in
+  (forall k, (k < n)%nat -> guard_fires P (run P k (start h s1)) = false) ->
+  c_mode (run P n (start h s1)) = MAfterExec ->
+  fvals (c_frames (run P n (start h s1))) = [] ->
+  match filter (evk t cid) (trace (c_st (run P n (start h s1)))) with [] => True | e :: _ => e = EvPause t cid end.
+Proof. exact all_paused_at_outer_flush_stree_guard. Qed.
+Print Assumptions C06_all_paused_at_outer_flush_stree_trace_guard.
+
+Theorem C06_resumed_while_code_runs_stree_guard : forall P, pointwise P -> forall p, stree p -> wns [] p -> forall n t q x,
+  let h := fst (create [] (FTask p) (st0 P)) in
+  let s1 := snd (create [] (FTask p) (st0 P)) in
+  (forall k, (k < n)%nat -> guard_fires P (run P k (start h s1)) = false) -> c_mode (run P n (start h s1)) = MRun t q ->
+  let c := run P n (start h s1) in
+  x = t \/ In x (fvals (c_frames c)) ->
+  forall tk, get x (c_st c) = Some (mkFut None (KTask tk)) -> forall cid f, In (CAsync cid f) (tk_ctxs tk) ->
+    exists rest, filter (evk x cid) (trace (c_st c)) = EvResume x cid :: rest.
+Proof. exact resumed_while_code_runs_stree_guard. Qed.
+Print Assumptions C06_resumed_while_code_runs_stree_guard.
+
+Theorem C06_caller_contexts_resumed_stree_guard : forall P, pointwise P -> forall p, stree p -> wns [] p -> forall n x,
+  let h := fst (create [] (FTask p) (st0 P)) in
+  let s1 := snd (create [] (FTask p) (st0 P)) in
+  (forall k, (k < n)%nat -> guard_fires P (run P k (start h s1)) = false) ->
+  is_final (c_mode (run P n (start h s1))) = false ->
+  let c := run P n (start h s1) in
+  In x (fvals (c_frames c)) ->
+  exists tk, get x (c_st c) = Some (mkFut None (KTask tk)) /\
+    forall cid f, In (CAsync cid f) (tk_ctxs tk) -> exists rest, filter (evk x cid) (trace (c_st c)) = EvResume x cid :: rest.
+Proof. exact caller_contexts_resumed_stree_guard. Qed.
+Print Assumptions C06_caller_contexts_resumed_stree_guard.
+
+Theorem C06_resumed_only_on_stack_stree_guard : forall P, pointwise P -> forall p, stree p -> wns [] p -> forall n t q u cid,
+  let h := fst (create [] (FTask p) (st0 P)) in
+  let s1 := snd (create [] (FTask p) (st0 P)) in
+  (forall k, (k < n)%nat -> guard_fires P (run P k (start h s1)) = false) -> c_mode (run P n (start h s1)) = MRun t q ->
+  let c := run P n (start h s1) in
+  (exists rest, filter (evk u cid) (trace (c_st c)) = EvResume u cid :: rest) ->
+  In u (tasks (c_st c)) /\
+  (u = t \/ In u (fvals (c_frames c)) \/ exists tk, get u (c_st c) = Some (mkFut None (KTask tk)) /\ tk_ds tk = true).
+Proof. exact resumed_only_on_stack_stree_guard. Qed.
+Print Assumptions C06_resumed_only_on_stack_stree_guard.
+
+Theorem C06_resume_pause_alternate_stree_wn_guard : forall P p n t cid,
+  pointwise P -> stree p -> wn [] p ->
+  (forall k, (k < n)%nat -> guard_fires P (run P k
+     (start (fst (create [] (FTask p) (st0 P))) (snd (create [] (FTask p) (st0 P))))) = false) ->
+  alternates t cid true (ctx_events t cid (trace (c_st (run P n (start (fst (create [] (FTask p) (st0 P))) (snd (create [] (FTask p) (st0 P)))))))).
+Proof. exact resume_pause_alternate_stree_wn_guard. Qed.
+Print Assumptions C06_resume_pause_alternate_stree_wn_guard.
